@@ -3,14 +3,18 @@
 Case = the Lean `Attrs.C20.Case`: the classes of ONE hierarchy (a base class, subclasses that add validated fields
 or re-declare inherited ones, siblings, optionally a plain class in between), each described by its resolved field
 list (api, class-level and per-field on_setattr as lists of elementary hooks, per field the length of its validator
-chain and whether it has a converter), the one callback that raises (`fault`), the switch position at the start and
+chain, whether it has a converter and whether it has a default factory; per class its `__attrs_pre_init__` /
+`__attrs_post_init__` hooks and `kw_only`), the one callback that raises (`fault`), the switch position at the start and
 a history of operations {set_disabled(v), set_run_validators(v), get_disabled, get_run_validators, enter
 disabled(), exit, exit by exception, construct class k, assign field i of the instance of class k,
 validate(instance of class k)} -- the readers range over instances of several classes within one history, in any
 order; plus harness-only data the model ignores: `hier` (who inherits from whom, which fields are own -- the
 `classes` are derived from it) and `cfg` (slots, how each validator chain is written, whether the classes were
 defined while validators were disabled, whether the context-manager objects were created up front, which exception
-leaves the block, through which namespace the accessors are reached, with-statements or explicit calls).
+leaves the block, through which namespace the accessors are reached, with-statements or explicit calls, whether
+construction goes through `__init__` or (init=False) a manual `__attrs_init__`, whether the hierarchy is rooted in
+`Exception`).  A construction records EVERY user callback -- pre-init hook, factories, converters, validators,
+post-init hook -- and the specification demands the non-validator ones identically with the switch on and off.
 
 Classes are created fresh for every case (nothing a reader may memoise on a class survives into another case, so
 replays are exact).  Every validator checks that it is called with the Attribute of the instance's own class and
@@ -106,6 +110,25 @@ def mk_converter(name):
     return c
 
 
+def mk_factory(name):
+    def fac():
+        _hit("factory", name, 0)
+        return "d." + name
+    return fac
+
+
+def _pre_noargs(self):
+    _hit("pre", "", 0)
+
+
+def _pre_withargs(self, *args, **kwargs):
+    _hit("pre", "", 0)
+
+
+def _post(self):
+    _hit("post", "", 0)
+
+
 def mk_hook(pos):
     def h(inst, a, value):
         _hit("hook", a.name, pos)
@@ -134,6 +157,8 @@ def _mk_field(f, is_define, bare):
     kw = dict(_on_setattr(f["onSet"], bare))
     if f["conv"]:
         kw["converter"] = mk_converter(f["name"])
+    if f.get("factory"):
+        kw["factory"] = mk_factory(f["name"])
     deco = None
     if n == 1:
         if style == "deco":
@@ -161,7 +186,9 @@ def _mk_field(f, is_define, bare):
 
 
 def _strip(f):
-    return {k: f[k] for k in ("name", "validators", "conv", "onSet", "style") if k in f}
+    g = {k: f[k] for k in ("name", "validators", "conv", "onSet", "style") if k in f}
+    g["factory"] = bool(f.get("factory", False))
+    return g
 
 
 def resolve(hier):
@@ -171,8 +198,15 @@ def resolve(hier):
     for node in hier["nodes"]:
         own = [_strip(f) for f in node["own"]]
         names = {f["name"] for f in own}
-        inherited = [] if node["parent"] is None else [f for f in out[node["parent"]]["fields"] if f["name"] not in names]
-        out.append({"isDefine": hier["isDefine"], "clsOnSet": hier["clsOnSet"], "fields": inherited + own})
+        par = None if node["parent"] is None else out[node["parent"]]
+        inherited = [] if par is None else [f for f in par["fields"] if f["name"] not in names]
+        # the hooks are found with getattr: the nearest definition along the chain
+        pre = node.get("pre", "none")
+        if pre == "none" and par is not None:
+            pre = par["pre"]
+        post = bool(node.get("post", False)) or (par is not None and par["post"])
+        out.append({"isDefine": hier["isDefine"], "clsOnSet": hier["clsOnSet"], "kwOnly": bool(hier.get("kwOnly", False)),
+                    "pre": pre, "post": post, "fields": inherited + own})
     return out
 
 
@@ -194,6 +228,12 @@ def build(case):
     eff_slots = cfg["slots"] if cfg.get("slots") is not None else is_define
     # a one-element class-level chain is passed bare (setters.validate itself), as the model's reading assumes
     kw.update(_on_setattr(hier["clsOnSet"], True))
+    if hier.get("kwOnly"):
+        kw["kw_only"] = True
+    if cfg.get("attrsInit"):
+        kw["init"] = False            # the same script becomes `__attrs_init__`
+    if cfg.get("exc") and not is_define:
+        kw["auto_exc"] = True
     deco = attrs.define if is_define else attr.s
     _BUILDS[0] += 1
     if _BUILDS[0] % 2000 == 0:
@@ -201,12 +241,17 @@ def build(case):
     attr.set_run_validators(not cfg.get("buildDisabled", False))
     classes = []
     for k, node in enumerate(hier["nodes"]):
-        base = object if node["parent"] is None else classes[node["parent"]]
+        base = (Exception if cfg.get("exc") else object) if node["parent"] is None else classes[node["parent"]]
         if node.get("plain") and node["parent"] is not None and not eff_slots:
             base = type("Plain%d" % k, (base,), {})
         ns = {f["name"]: _mk_field(f, is_define, bare) for f in node["own"]}
+        if node.get("pre", "none") != "none":
+            ns["__attrs_pre_init__"] = _pre_noargs if node["pre"] == "noArgs" else _pre_withargs
+        if node.get("post"):
+            ns["__attrs_post_init__"] = _post
         classes.append(deco(**kw)(type("K%d" % k, (base,), ns)))
-    return [(K, [f["name"] for f in c["fields"]]) for K, c in zip(classes, case["classes"])]
+    return [(K, [f["name"] for f in c["fields"]], [f["name"] for f in c["fields"] if not f.get("factory")])
+            for K, c in zip(classes, case["classes"])]
 
 
 def _b3(thunk):
@@ -270,7 +315,7 @@ def _observe(case, open_cms):
     validate = ns.validate
     # the instances that assign / validate work on, one per class: built without the initializer
     insts = []
-    for K, names in built:
+    for K, names, _ in built:
         inst = K.__new__(K)
         for n in names:
             object.__setattr__(inst, n, "v." + n)
@@ -311,8 +356,12 @@ def _observe(case, open_cms):
             elif k == "getRun":
                 ret = _b3(get_run)
             elif k == "construct":
-                K, names = built[a["k"]]
-                K(**{n: "v." + n for n in names})
+                K, _, passed = built[a["k"]]
+                vals = {n: "v." + n for n in passed}
+                if cfg.get("attrsInit"):
+                    K.__new__(K).__attrs_init__(**vals)
+                else:
+                    K(**vals)
             elif k == "assign":
                 names = built[a["k"]][1]
                 setattr(insts[a["k"]], names[a["i"]], "w." + names[a["i"]])
@@ -412,16 +461,18 @@ def _depths(ops):
     return out
 
 
-def _fld(name, validators=1, conv=False, on_set="unset", style="list"):
-    return {"name": name, "validators": validators, "conv": conv, "onSet": on_set, "style": style}
+def _fld(name, validators=1, conv=False, on_set="unset", style="list", factory=False):
+    return {"name": name, "validators": validators, "conv": conv, "onSet": on_set, "style": style, "factory": factory}
 
 
-def _node(parent, *own, plain=False):
-    return {"parent": parent, "plain": plain, "own": list(own)}
+def _node(parent, *own, plain=False, pre="none", post=False):
+    return {"parent": parent, "plain": plain, "pre": pre, "post": post, "own": list(own)}
 
 
 def _hier(is_define, cls_on_set, *nodes):
-    return {"isDefine": is_define, "clsOnSet": cls_on_set, "nodes": list(nodes)}
+    # a factory field may precede mandatory ones only if everything is keyword-only
+    kw = any(f.get("factory") for nd in nodes for f in nd["own"])
+    return {"isDefine": is_define, "clsOnSet": cls_on_set, "kwOnly": kw, "nodes": list(nodes)}
 
 
 def _v(field, idx):
@@ -439,6 +490,13 @@ POOL = [
     (_hier(True, chain(["custom", "validate"]), _node(None, _fld("x", 1, True))), None),
     (_hier(True, "unset", _node(None, _fld("x", 1, True, "noOp"), _fld("y", 1))), _v("y", 0)),
     (_hier(True, "unset", _node(None, _fld("x", 1, False, chain(["validate", "validate"])))), None),
+    # init hooks and factories around the validator block
+    (_hier(True, "unset", _node(None, _fld("x"), post=True)), None),
+    (_hier(False, "unset", _node(None, _fld("x", 1, True), _fld("y", 1), pre="noArgs", post=True)), _v("y", 0)),
+    (_hier(False, V_CHAIN, _node(None, _fld("x", 2, True, factory=True), _fld("y", 0, True), pre="withArgs", post=True)), _v("x", 1)),
+    (_hier(True, "unset", _node(None, _fld("x", 0, True), post=True)), None),                      # no validator: no guard
+    (_hier(True, "unset", _node(None, _fld("x", 0, True), pre="noArgs", post=True), _node(0, _fld("y", 1, factory=True))), None),
+    (_hier(False, "unset", _node(None, _fld("x"), post=True), _node(0, _fld("y", 2), pre="withArgs"), _node(0, _fld("x", 0), post=True)), _v("y", 0)),
     # base + subclass that adds a validated field
     (_hier(True, "unset", _node(None, _fld("x", 1, True)), _node(0, _fld("y", 1))), None),
     (_hier(False, "unset", _node(None, _fld("x")), _node(0, _fld("y", 2))), _v("y", 1)),
@@ -480,6 +538,8 @@ def _rand_cfg(rng):
         "excKinds": [rng.choice(EXC_KINDS) for _ in range(3)],
         "via": rng.choice(["attr", "attrs"]),
         "realWith": rng.random() < 0.4,
+        "attrsInit": rng.random() < 0.2,
+        "exc": rng.random() < 0.15,
     }
 
 
@@ -538,7 +598,7 @@ def _rand_hook(rng, p_unset):
 def _rand_field(rng, name):
     n = rng.choice([0, 1, 1, 1, 2, 3])
     return {"name": name, "validators": n, "conv": rng.random() < 0.45, "onSet": _rand_hook(rng, 0.6),
-            "style": _style(n, rng)}
+            "style": _style(n, rng), "factory": rng.random() < 0.2}
 
 
 def _rand_hier(rng):
@@ -563,8 +623,12 @@ def _rand_hier(rng):
         own_names = {f["name"] for f in own}
         resolved_names.append(([] if parent is None else [n for n in resolved_names[parent] if n not in own_names])
                               + [f["name"] for f in own])
-        nodes.append({"parent": parent, "plain": parent is not None and rng.random() < 0.3, "own": own})
-    hier = {"isDefine": rng.random() < 0.5, "clsOnSet": _rand_hook(rng, 0.45), "nodes": nodes}
+        nodes.append({"parent": parent, "plain": parent is not None and rng.random() < 0.3,
+                      "pre": rng.choice(["none", "none", "none", "noArgs", "withArgs"]) if k == 0 or rng.random() < 0.3 else "none",
+                      "post": rng.random() < (0.5 if k == 0 else 0.2), "own": own})
+    any_factory = any(f["factory"] for nd in nodes for f in nd["own"])
+    hier = {"isDefine": rng.random() < 0.5, "clsOnSet": _rand_hook(rng, 0.45),
+            "kwOnly": any_factory or rng.random() < 0.25, "nodes": nodes}
     cands = [_v(f["name"], i) for c in resolve(hier) for f in c["fields"] for i in range(f["validators"])]
     fault = rng.choice(cands) if cands and rng.random() < 0.45 else None
     return hier, fault
@@ -660,7 +724,7 @@ def gen_cases(tier, rng):
                 hier = _restyle(hier, rng)
                 yield mk_case(hier, fault, start, _bind(_close(ops, rng), resolve(hier), rng), _rand_cfg(rng))
     # random block: longer histories, random hierarchies, non-bool arguments, get operations
-    n = 1_000_000 if tier == "quick" else 120_000
+    n = 1_000_000 if tier == "quick" else 90_000
     for _ in range(n):
         hier, fault = _rand_hier(rng) if rng.random() < 0.8 else rng.choice(POOL)
         hier = _restyle(hier, rng)
@@ -722,6 +786,15 @@ def dist(case, obs):
         "exc_kinds": ",".join(sorted({str(s["exc"]) for s in steps})),
         "exit_exc": sum(1 for k in kinds if k == "exitExc"),
         "slots": cfg.get("slots"),
+        "post_init": sum(1 for c in case["classes"] if c["post"]),
+        "pre_init": ",".join(sorted({c["pre"] for c in case["classes"]})),
+        "factories": min(3, sum(1 for c in case["classes"] for f in c["fields"] if f["factory"])),
+        "constructs_disabled_with_post_and_validators": min(3, sum(
+            1 for o, s in zip(case["ops"], steps) if _op(o)[0] == "construct" and s["run"] == "f"
+            and case["classes"][_op(o)[1]["k"]]["post"]
+            and any(f["validators"] for f in case["classes"][_op(o)[1]["k"]]["fields"]))),
+        "init_via": "__attrs_init__" if cfg.get("attrsInit") else "__init__",
+        "exception_class": bool(cfg.get("exc")),
         "build_disabled": cfg.get("buildDisabled"),
         "driver": "with-statements" if cfg.get("realWith") else "enter/exit calls",
     }
@@ -764,7 +837,7 @@ def shrink(case):
         yield dict(case, start=True)
     cfg = case.get("cfg", {})
     base = {"slots": None, "bare": True, "buildDisabled": False, "earlyCm": False,
-            "excKinds": ["valueError"], "via": "attr", "realWith": False}
+            "excKinds": ["valueError"], "via": "attr", "realWith": False, "attrsInit": False, "exc": False}
     for k, v in base.items():
         if cfg.get(k) != v:
             yield dict(case, cfg=dict(cfg, **{k: v}))
@@ -775,16 +848,19 @@ def shrink(case):
         yield _rehier(case, dict(hier, nodes=nodes[:-1]))
     if hier["clsOnSet"] != "unset":
         yield _rehier(case, dict(hier, clsOnSet="unset"))
+    if hier.get("kwOnly") and not any(f.get("factory") for nd in nodes for f in nd["own"]):
+        yield _rehier(case, dict(hier, kwOnly=False))
     for k, nd in enumerate(nodes):
         def with_own(own):
             return _rehier(case, dict(hier, nodes=nodes[:k] + [dict(nd, own=own)] + nodes[k + 1:]))
-        if nd.get("plain"):
-            yield _rehier(case, dict(hier, nodes=nodes[:k] + [dict(nd, plain=False)] + nodes[k + 1:]))
+        for key, v in (("plain", False), ("pre", "none"), ("post", False)):
+            if nd.get(key, v) != v:
+                yield _rehier(case, dict(hier, nodes=nodes[:k] + [dict(nd, **{key: v})] + nodes[k + 1:]))
         for j, f in enumerate(nd["own"]):
             cand = with_own(nd["own"][:j] + nd["own"][j + 1:])
             if _valid(cand):
                 yield cand
-            for key, v in (("conv", False), ("onSet", "unset"), ("style", "list")):
+            for key, v in (("conv", False), ("onSet", "unset"), ("style", "list"), ("factory", False)):
                 if f.get(key) != v:
                     yield with_own(nd["own"][:j] + [dict(f, **{key: v})] + nd["own"][j + 1:])
             if f["validators"] > 1:
@@ -817,6 +893,8 @@ LEVEL_TEXT = (
     "C20_disabled_inside, C20_block_silences_validators, C20_nonbool_rejected_state_unchanged, "
     "C20_readers_memoryless (what a reader runs depends only on the class of the instance and the switch, not on which "
     "instances of which classes of the hierarchy were read before), "
+    "C20_hooks_unaffected / C20_construct_callbacks (a construction calls pre-init, per field factory and converter, "
+    "validators iff enabled, post-init; only the validators depend on the switch), "
     "C20_honoured_construct (via C02_fault_prefix of the initializer model)/_assign/_validate (callbacks run = declarative "
     "list cut after the failing one; validators iff enabled), C20_switch_independence (converters and user hooks "
     "unaffected), C20_assign_validates_iff, C20_enabled_all_fire, C20_matcher_is_dyck (the specification's bracket "
@@ -826,10 +904,11 @@ LEVEL_TEXT = (
     "length <= 5 over the ten operations from both start positions on a structured pool of class hierarchies (base, "
     "subclasses adding / re-declaring validated fields, siblings, plain class in between; every reader names the class "
     "whose instance it works on; classes fresh per case; validators check they are called for their own class's "
-    "Attribute), reader sweeps over every order of the classes, plus 120k "
+    "Attribute), reader sweeps over every order of the classes, plus 90k "
     "random histories (length <= 12, depth <= 4, non-bool arguments, getters, random classes); quick = length <= 3 plus "
     "random to the time budget; observed after every operation: get_disabled(), get_run_validators(), returned value, "
-    "exception kind, __exit__ result, and the exact sequence of validator/converter/hook callbacks. Only observed, not "
+    "exception kind, __exit__ result, and the exact sequence of pre-init/factory/converter/validator/post-init/on_setattr-hook "
+    "callbacks (classes with and without validators, __init__ and __attrs_init__, exception classes). Only observed, not "
     "proved: CPython's generator/contextmanager protocol (modelled as push/pop; driven both by explicit __enter__/__exit__ "
     "calls and by real nested with statements), single-threaded use."
 )
